@@ -10,6 +10,9 @@ func init() {
 	vRegister("C04Order", VerifC04Order)
 	vRegister("C04Long", VerifC04Long)
 	vRegister("C04Sort", VerifC04Sort)
+	vRegister("C04Tail", VerifC04Tail)
+	vRegister("C04ComparePre", VerifC04ComparePre)
+	vRegister("C04OrderPre", VerifC04OrderPre)
 }
 
 const vNumRE = `(0|[1-9][0-9]*)`
@@ -323,4 +326,70 @@ func VerifC04Sort() {
 	}
 	vReach("sorted")
 	vAssert("permutation", perm)
+}
+
+var vPrefixes = []string{"v1.0.0-", "v1.0.0+", "v1.2.", "v1.", "v1.0.0-a.", "v1.0.0-1+", "v0.0.0-0."}
+
+// VerifC04Tail: grammar and accessors on a fixed valid prefix followed by an
+// arbitrary tail, so that prerelease and build syntax is reached at depth.
+func VerifC04Tail() {
+	p := vPrefixes[vChoice("prefix", len(vPrefixes))]
+	t := vString("tail", vChoice("len", vParam("maxtail", 5)+1))
+	v := p + t
+	ok := IsValid(v)
+	vAssert("valid==grammar", ok == vMatch(vSemverRE, v))
+	if !ok {
+		vReach("invalid")
+		vAssert("invalid:Canonical", Canonical(v) == "")
+		vAssert("invalid:Prerelease", Prerelease(v) == "")
+		vAssert("invalid:Build", Build(v) == "")
+		return
+	}
+	vReach("valid")
+	major, minor, patch, pre, build, _ := vRefParts(v)
+	canon := "v" + major + "." + minor + "." + patch + pre
+	vAssert("Canonical", Canonical(v) == canon)
+	vAssert("Prerelease", Prerelease(v) == pre)
+	vAssert("Build", Build(v) == build)
+	vAssert("MajorMinor", MajorMinor(v) == "v"+major+"."+minor)
+	vAssert("Canonical-valid", IsValid(canon))
+	vAssert("Compare-canonical", Compare(v, canon) == 0)
+}
+
+// VerifC04ComparePre: precedence of prerelease identifiers (numeric vs
+// alphanumeric, numeric by value, prefix rule) against the SemVer reference.
+func VerifC04ComparePre() {
+	max := vParam("maxtail", 3)
+	x := vString("x", vChoice("lenx", max+1))
+	y := vString("y", vChoice("leny", max+1))
+	v, w := "v1.0.0-"+x, "v1.0.0-"+y
+	if vChoice("release", 4) == 0 {
+		w = "v1.0.0" + y
+	}
+	got := Compare(v, w)
+	want := vRefCompare(v, w)
+	if want == 0 {
+		vReach("equal")
+	} else {
+		vReach("ordered")
+	}
+	vAssert("Compare==reference", got == want)
+}
+
+// VerifC04OrderPre: order axioms on triples that differ in their prerelease.
+func VerifC04OrderPre() {
+	max := vParam("maxtail", 2)
+	u := "v1.0.0-" + vString("u", vChoice("lenu", max+1))
+	v := "v1.0.0-" + vString("v", vChoice("lenv", max+1))
+	w := "v1.0.0-" + vString("w", vChoice("lenw", max+1))
+	uv, vw, uw, vu := Compare(u, v), Compare(v, w), Compare(u, w), Compare(v, u)
+	vAssert("antisymmetric", uv == -vu)
+	if uv <= 0 && vw <= 0 {
+		vReach("chain")
+		vAssert("transitive", uw <= 0)
+		if uv < 0 || vw < 0 {
+			vAssert("transitive-strict", uw < 0)
+		}
+	}
+	vAssert("zero-iff-canonical", (uv == 0) == (Canonical(u) == Canonical(v)))
 }
